@@ -385,8 +385,15 @@ class Tiny:
                         raise TinyRaise("ValueError")
             if self.model_strings and f == "sorted" and len(e.args) == 1 and not e.keywords:
                 v = self.ev(e.args[0])
-                if isinstance(v, (list, tuple)) and all(isinstance(x, (int, str)) for x in v):
-                    return sorted(v)
+                if isinstance(v, dict):
+                    v = list(v)
+                if isinstance(v, (list, tuple, set)) and all(isinstance(x, (int, str)) for x in v):
+                    try:
+                        return sorted(v)
+                    except TypeError:
+                        raise TinyRaise("TypeError")
+            if f == "bool" and len(e.args) == 1 and not e.keywords and "bool" not in self.calls and self.model_types:
+                return self.truth(self.ev(e.args[0]))
             if f == "getattr" and len(e.args) == 2 and not e.keywords:
                 nm = self.ev(e.args[1])
                 if isinstance(nm, str) and nm.isidentifier():
@@ -608,11 +615,16 @@ class Tiny:
                         for x, vv in zip(t.elts, v):
                             self.env[norm.text(x)] = vv
                         continue
+                    if isinstance(v, (list, tuple)) and len(v) != len(t.elts) and not any(isinstance(x, ast.Starred) for x in t.elts):
+                        raise TinyRaise("ValueError")  # too many / not enough values to unpack
                     raise AnalysisError("tiny: tuple assignment")
                 if isinstance(t, ast.Subscript) and not isinstance(t.slice, ast.Slice) and norm.text(t) not in self.env:
                     base = self.ev(t.value)
                     if isinstance(base, dict):
-                        base[self.ev(t.slice)] = v
+                        try:
+                            base[self.ev(t.slice)] = v
+                        except TypeError:
+                            raise TinyRaise("TypeError")  # unhashable key
                         continue
                     if isinstance(base, list):
                         try:
